@@ -122,7 +122,10 @@ where
                 };
                 (lower, upper)
             }
-            _ => (0, Some(0)),
+            _ => {
+                let queue_len = self.in_progress_queue.len();
+                (queue_len, Some(queue_len))
+            }
         }
     }
 }
@@ -190,7 +193,10 @@ where
                 };
                 (lower, upper)
             }
-            _ => (0, Some(0)),
+            _ => {
+                let queue_len = self.in_progress_queue.len();
+                (queue_len, Some(queue_len))
+            }
         }
     }
 }
